@@ -38,6 +38,7 @@ type boundsProver struct {
 	depth    int
 	lifted   int
 	inConv   bool
+	subs     map[*ssa.Function][]*ssa.BinOp
 }
 
 func newBoundsProver(p *Program) *boundsProver {
@@ -192,6 +193,15 @@ func (bp *boundsProver) interval(v ssa.Value, depth int) (int64, int64, bool) {
 		lo, hi, ok := bp.interval(x.X, depth-1)
 		if ok && intTypeContains(x.Type(), x.X.Type(), bp.p.Sizes) {
 			return lo, hi, true
+		}
+		// kept by the facts in scope at the conversion (a guard bounds the operand within the destination)
+		if bp.convPreserves(x) {
+			if !ok {
+				lo, hi, ok = typeRange(x.X.Type(), bp.p.Sizes)
+			}
+			if ok {
+				return lo, hi, true
+			}
 		}
 		return typeRange(x.Type(), bp.p.Sizes)
 	case *ssa.ChangeType:
@@ -435,6 +445,28 @@ func (bp *boundsProver) sliceElemInterval(v ssa.Value, depth int) ([2]int64, boo
 // ---- facts -------------------------------------------------------------------------------------
 
 // factsAt collects the difference constraints that hold whenever control is at `at`.
+// subsOf: the integer subtractions of two non-constant operands computed in fn.
+func (bp *boundsProver) subsOf(fn *ssa.Function) []*ssa.BinOp {
+	if bp.subs == nil {
+		bp.subs = map[*ssa.Function][]*ssa.BinOp{}
+	}
+	if l, ok := bp.subs[fn]; ok {
+		return l
+	}
+	var out []*ssa.BinOp
+	for _, b := range fn.Blocks {
+		for _, in := range b.Instrs {
+			if bo, ok := in.(*ssa.BinOp); ok && bo.Op == token.SUB && isIntLike(bo.Type()) {
+				if _, isC := constInt(bo.Y); !isC {
+					out = append(out, bo)
+				}
+			}
+		}
+	}
+	bp.subs[fn] = out
+	return out
+}
+
 func (bp *boundsProver) factsAt(at ssa.Instruction, viaPred *ssa.BasicBlock) []bfact {
 	var fs []bfact
 	neq := map[string][]int64{}
@@ -463,15 +495,32 @@ func (bp *boundsProver) factsAt(at ssa.Instruction, viaPred *ssa.BasicBlock) []b
 		le := func(x, y lin, strict int64) { // x <= y - strict  =>  x.term - y.term <= y.off - x.off - strict
 			fs = append(fs, bfact{x.term, y.term, y.off - x.off - strict})
 		}
+		// an ordering between two non-constant terms also bounds their difference where the function computes
+		// it: lo < hi gives 1 <= hi - lo
+		diffFact := func(lo, hi lin, strict int64) {
+			if lo.term == "" || hi.term == "" {
+				return
+			}
+			for _, sub := range bp.subsOf(at.Parent()) {
+				m, s2 := bp.linear(sub.X, 6), bp.linear(sub.Y, 6)
+				if m == hi && s2 == lo {
+					fs = append(fs, bfact{"", "v:" + sub.Name(), -strict})
+				}
+			}
+		}
 		switch op {
 		case token.LSS:
 			le(a, b, 1)
+			diffFact(a, b, 1)
 		case token.LEQ:
 			le(a, b, 0)
+			diffFact(a, b, 0)
 		case token.GTR:
 			le(b, a, 1)
+			diffFact(b, a, 1)
 		case token.GEQ:
 			le(b, a, 0)
+			diffFact(b, a, 0)
 		case token.EQL:
 			le(a, b, 0)
 			le(b, a, 0)
@@ -615,6 +664,11 @@ func (bp *boundsProver) lenFacts(x ssa.Value, depth int) []bfact {
 						pl := bp.linear(part, 6)
 						fs = append(fs, bfact{pl.term, name, -pl.off}) // part <= len(x)
 					}
+				}
+				// the other summand is known not to be negative (a constant, or a value whose interval is known)
+				if lo, _, ok := bp.interval(other, 4); ok && lo >= 0 {
+					pl := bp.linear(part, 6)
+					fs = append(fs, bfact{pl.term, name, -pl.off})
 				}
 			}
 		}
